@@ -7,11 +7,10 @@ independence, consistency with prolongation) and emits the expected matrices / v
 the same inputs through every shipped assembling route of pyiga.assemble (no form compilation) and compares entrywise."""
 import itertools
 from concurrent.futures import ThreadPoolExecutor
-from fractions import Fraction
 
 import numpy as np
 
-from ..common import MachineryError, frac, write_cfg
+from ..common import MachineryError, write_cfg
 from .c02 import Agg, bad, fr
 
 TOL = 1e-10
@@ -206,8 +205,11 @@ def check_tp(ctx, agg, rec):
     c.cmp('assemble(MassAssembler, %s, %s)' % (tagd, gname), lambda: assemble.assemble(MA, kvs, geo=geo), M)
     c.cmp('assemble(StiffnessAssembler, %s, %s)' % (tagd, gname), lambda: assemble.assemble(KA, kvs, geo=geo, symmetric=True), K)
     c.cmp('Assembler(StiffnessAssembler, %s, %s)' % (tagd, gname), lambda: assemble.Assembler(KA, kvs, geo=geo).assemble(), K)
-    c.cmp('mass_fast(%s, %s)' % (tagd, gname), lambda: assemble.mass_fast(kvs, geo, tol=FAST_TOL, verbose=0), M, tol=3 * FAST_TOL)
-    c.cmp('stiffness_fast(%s, %s)' % (tagd, gname), lambda: assemble.stiffness_fast(kvs, geo, tol=FAST_TOL, verbose=0), K, tol=3 * FAST_TOL)
+    # the low-rank assembler picks rows with rand(): repeat it on the small multilinear spaces where a premature stop shows
+    for rep in range(8 if max(rec['ps']) == 1 else 1):
+        cls = ', multilinear space' if max(rec['ps']) == 1 else ''
+        c.cmp('mass_fast(%s, %s%s)' % (tagd, gname, cls), lambda: assemble.mass_fast(kvs, geo, tol=FAST_TOL, verbose=0), M, tol=3 * FAST_TOL)
+        c.cmp('stiffness_fast(%s, %s%s)' % (tagd, gname, cls), lambda: assemble.stiffness_fast(kvs, geo, tol=FAST_TOL, verbose=0), K, tol=3 * FAST_TOL)
     # consequences on the real matrices
     X = c.guarded('mass', lambda: assemble.mass(kvs, geo).toarray())
     if X is not None and X.shape == (N, N):
@@ -281,12 +283,12 @@ def run(ctx):
     agg = Agg(ctx)
     if not ctx.thorough:
         runs = [('sym', dict(Tier='quick', Degrees={0, 1, 2, 3}, Phases={'sym', 'asym'}, TpIds={1}), 4),
-                ('tp', dict(Tier='quick', Degrees={0}, Phases={'tp'}, TpIds={1, 3, 4, 6}), 4)]
+                ('tp', dict(Tier='quick', Degrees={0}, Phases={'tp'}, TpIds={1, 3, 4, 6, 8}), 4)]
     else:
         runs = [('sym01', dict(Tier='thorough', Degrees={0, 1, 2}, Phases={'sym', 'asym'}, TpIds={1}), 4),
                 ('sym3', dict(Tier='thorough', Degrees={3}, Phases={'sym', 'asym'}, TpIds={1}), 4),
                 ('sym4', dict(Tier='thorough', Degrees={4}, Phases={'sym', 'asym'}, TpIds={1}), 4),
-                ('tp', dict(Tier='thorough', Degrees={0}, Phases={'tp'}, TpIds={1, 2, 3, 4, 5, 6, 7}), 4)]
+                ('tp', dict(Tier='thorough', Degrees={0}, Phases={'tp'}, TpIds={1, 2, 3, 4, 5, 6, 7, 8, 9}), 4)]
 
     def one(item):
         name, consts, workers = item
